@@ -357,6 +357,8 @@ def rule_stale_copies(ctx, rule='R10.10'):
 
 
 def run(ctx):
+    from . import c09 as _c09
+    _c09.rule_keep_unsynchronized(ctx)     # R09.3: a synchronisation that keeps the unsynchronised state leaves the integrator unsynchronised (reversibility through output points)
     from . import edges
     edges.rule_sentinel_before_use(ctx, 'R10.12')    # SEI caches its vertical constants for the frequency in use
     edges.rule_cached_count_identity(ctx, 'R10.13')
